@@ -310,6 +310,7 @@ Definition fnumber_operands (input : fnumber) : outcome operands :=
           if N.ltb (op_v ops) mfd then
             let shift := mfd - op_v ops in
             let f' :=
+              if N.eqb (op_f ops) 0 then 0 else                                  (* if operands.f != 0 { .. } *)
               match (if N.leb shift u32_max then Some shift else None) with     (* u32::try_from(..).ok() *)
               | Some shift =>
                   match checked_pow10_u64 shift with
